@@ -229,7 +229,7 @@ impl<T: crate::EventSource> TransientSourceState<T> {
 //@ entry
         proof { broadcast use axiom_droppable; }
 //@ enditem
-//@ item src/sources/transient.rs / impl crate::EventSource for TransientSource<T> / fn register props=C18,C15,C16,C01 ret=r splitarms
+//@ item src/sources/transient.rs / impl crate::EventSource for TransientSource<T> / fn register props=C18,C15,C16,C01,C07 ret=r splitarms
 //@ rw R1 * <<replace_state(TransientSourceState::Keep)>> => <<replace_state(|x: T| -> (r: TransientSourceState<T>) ensures r == TransientSourceState::Keep(x) { TransientSourceState::Keep(x) })>>
 //@ rw R1 * <<replace_state(TransientSourceState::Register)>> => <<replace_state(|x: T| -> (r: TransientSourceState<T>) ensures r == TransientSourceState::Register(x) { TransientSourceState::Register(x) })>>
 //@ rw R1 * <<replace_state(TransientSourceState::Disable)>> => <<replace_state(|x: T| -> (r: TransientSourceState<T>) ensures r == TransientSourceState::Disable(x) { TransientSourceState::Disable(x) })>>
@@ -238,7 +238,7 @@ impl<T: crate::EventSource> TransientSourceState<T> {
 //@ entry
         proof { broadcast use axiom_droppable; }
 //@ enditem
-//@ item src/sources/transient.rs / impl crate::EventSource for TransientSource<T> / fn reregister props=C18,C15,C16,C01 ret=r splitarms
+//@ item src/sources/transient.rs / impl crate::EventSource for TransientSource<T> / fn reregister props=C18,C15,C16,C01,C07 ret=r splitarms
 //@ spec
         ensures
             // F6a (known finding): a disabled child is unregistered here but the state does not record it
